@@ -826,7 +826,7 @@ def refusal_oracle(step):
 
 def effect_oracle(step, w=None):
     import mut_spec
-    return mut_spec.check(step)
+    return mut_spec.check(step, w)
 
 
 # ---------------------------------------------------------------------------
@@ -1299,4 +1299,1299 @@ def renumber(op, dropped):
 # ---------------------------------------------------------------------------
 # Minimal witnesses of repaired defects (each fails an oracle on the unchanged code)
 # ---------------------------------------------------------------------------
-CORPUS: list = []
+CORPUS: list = [
+ {"id": "D48", "univ": ["s:a", "s:b"], "ops": [["new", False, None], ["add", 0, 0, 0, None, None, None], ["from_dict", 0, 1, [[1, None, []], [1, None, []]]]]},
+ {
+  "id": "D01",
+  "univ": [
+   "s:a",
+   "s:b"
+  ],
+  "ops": [
+   [
+    "new",
+    False,
+    None
+   ],
+   [
+    "add",
+    0,
+    0,
+    0,
+    None,
+    None,
+    None
+   ],
+   [
+    "add",
+    0,
+    1,
+    1,
+    None,
+    None,
+    None
+   ],
+   [
+    "move",
+    0,
+    1,
+    0,
+    2,
+    None
+   ]
+  ]
+ },
+ {
+  "id": "D02",
+  "univ": [
+   "e:1",
+   "e:1"
+  ],
+  "ops": [
+   [
+    "new",
+    False,
+    None
+   ],
+   [
+    "add",
+    0,
+    0,
+    0,
+    "x",
+    None,
+    None
+   ],
+   [
+    "add",
+    0,
+    0,
+    1,
+    "y",
+    None,
+    None
+   ],
+   [
+    "remove",
+    0,
+    2,
+    False,
+    False
+   ]
+  ]
+ },
+ {
+  "id": "D02b",
+  "univ": [
+   "e:1",
+   "e:1",
+   "s:p"
+  ],
+  "ops": [
+   [
+    "new",
+    False,
+    None
+   ],
+   [
+    "add",
+    0,
+    0,
+    0,
+    "x",
+    None,
+    None
+   ],
+   [
+    "add",
+    0,
+    0,
+    1,
+    "y",
+    None,
+    None
+   ],
+   [
+    "add",
+    0,
+    0,
+    2,
+    None,
+    None,
+    None
+   ],
+   [
+    "move",
+    0,
+    2,
+    0,
+    3,
+    None
+   ]
+  ]
+ },
+ {
+  "id": "D03",
+  "univ": [
+   "s:a",
+   "s:b"
+  ],
+  "ops": [
+   [
+    "new",
+    False,
+    None
+   ],
+   [
+    "add",
+    0,
+    0,
+    0,
+    None,
+    None,
+    None
+   ],
+   [
+    "add",
+    0,
+    1,
+    1,
+    None,
+    None,
+    None
+   ],
+   [
+    "add",
+    0,
+    2,
+    0,
+    None,
+    None,
+    None
+   ],
+   [
+    "remove",
+    0,
+    3,
+    False,
+    True
+   ]
+  ]
+ },
+ {
+  "id": "D04",
+  "univ": [
+   "s:a",
+   "s:b"
+  ],
+  "ops": [
+   [
+    "new",
+    False,
+    None
+   ],
+   [
+    "add",
+    0,
+    0,
+    0,
+    None,
+    None,
+    None
+   ],
+   [
+    "add",
+    0,
+    1,
+    1,
+    None,
+    None,
+    {
+     "n": 1
+    }
+   ]
+  ]
+ },
+ {
+  "id": "D42",
+  "univ": [
+   "s:a",
+   "s:b"
+  ],
+  "ops": [
+   [
+    "new",
+    False,
+    None
+   ],
+   [
+    "add",
+    0,
+    0,
+    0,
+    None,
+    None,
+    None
+   ],
+   [
+    "add",
+    0,
+    1,
+    1,
+    None,
+    None,
+    2
+   ]
+  ]
+ },
+ {
+  "id": "D06",
+  "univ": [
+   "s:a",
+   "s:b"
+  ],
+  "ops": [
+   [
+    "new",
+    False,
+    None
+   ],
+   [
+    "add",
+    0,
+    0,
+    0,
+    None,
+    None,
+    None
+   ],
+   [
+    "add",
+    0,
+    1,
+    1,
+    None,
+    None,
+    None
+   ],
+   [
+    "addnode",
+    0,
+    2,
+    0,
+    1,
+    None,
+    None,
+    None,
+    True
+   ]
+  ]
+ },
+ {
+  "id": "D07",
+  "univ": [
+   "s:a",
+   "s:b"
+  ],
+  "ops": [
+   [
+    "new",
+    False,
+    None
+   ],
+   [
+    "add",
+    0,
+    0,
+    0,
+    None,
+    None,
+    None
+   ],
+   [
+    "set_data",
+    0,
+    1,
+    None,
+    0,
+    None
+   ]
+  ]
+ },
+ {
+  "id": "D07b",
+  "univ": [
+   "s:a",
+   "s:b",
+   "s:c"
+  ],
+  "ops": [
+   [
+    "new",
+    False,
+    None
+   ],
+   [
+    "add",
+    0,
+    0,
+    0,
+    None,
+    None,
+    None
+   ],
+   [
+    "add",
+    0,
+    0,
+    1,
+    None,
+    None,
+    None
+   ],
+   [
+    "add",
+    0,
+    2,
+    2,
+    None,
+    None,
+    None
+   ],
+   [
+    "addnode",
+    0,
+    3,
+    0,
+    1,
+    0,
+    None,
+    None,
+    None
+   ]
+  ]
+ },
+ {
+  "id": "D09",
+  "univ": [
+   "s:a",
+   "s:b"
+  ],
+  "ops": [
+   [
+    "new",
+    False,
+    None
+   ],
+   [
+    "add",
+    0,
+    0,
+    0,
+    None,
+    None,
+    None
+   ],
+   [
+    "add",
+    0,
+    0,
+    1,
+    None,
+    None,
+    None
+   ],
+   [
+    "add",
+    0,
+    2,
+    0,
+    None,
+    None,
+    None
+   ],
+   [
+    "move",
+    0,
+    3,
+    0,
+    0,
+    None
+   ]
+  ]
+ },
+ {
+  "id": "D10",
+  "univ": [
+   "s:a",
+   "s:b"
+  ],
+  "ops": [
+   [
+    "new",
+    False,
+    None
+   ],
+   [
+    "add",
+    0,
+    0,
+    0,
+    None,
+    None,
+    None
+   ],
+   [
+    "add",
+    0,
+    0,
+    1,
+    None,
+    None,
+    None
+   ],
+   [
+    "add",
+    0,
+    2,
+    0,
+    None,
+    None,
+    None
+   ],
+   [
+    "remove",
+    0,
+    2,
+    True,
+    False
+   ]
+  ]
+ },
+ {
+  "id": "D11",
+  "univ": [
+   "s:a",
+   "s:b"
+  ],
+  "ops": [
+   [
+    "new",
+    False,
+    None
+   ],
+   [
+    "add",
+    0,
+    0,
+    0,
+    None,
+    None,
+    None
+   ],
+   [
+    "add",
+    0,
+    0,
+    1,
+    None,
+    None,
+    None
+   ],
+   [
+    "rename",
+    0,
+    2,
+    0
+   ]
+  ]
+ },
+ {
+  "id": "D12",
+  "univ": [
+   "s:a",
+   "s:b"
+  ],
+  "ops": [
+   [
+    "new",
+    False,
+    None
+   ],
+   [
+    "add",
+    0,
+    0,
+    0,
+    None,
+    None,
+    None
+   ],
+   [
+    "add",
+    0,
+    0,
+    1,
+    None,
+    None,
+    None
+   ],
+   [
+    "addnode",
+    0,
+    1,
+    0,
+    2,
+    None,
+    None,
+    None,
+    None
+   ]
+  ]
+ },
+ {
+  "id": "D13",
+  "univ": [
+   "s:a",
+   "s:b"
+  ],
+  "ops": [
+   [
+    "new",
+    False,
+    None
+   ],
+   [
+    "add",
+    0,
+    0,
+    0,
+    None,
+    None,
+    None
+   ],
+   [
+    "add",
+    0,
+    0,
+    1,
+    None,
+    None,
+    False
+   ]
+  ]
+ },
+ {
+  "id": "D14",
+  "univ": [
+   "s:a",
+   "s:b"
+  ],
+  "ops": [
+   [
+    "new",
+    True,
+    None
+   ],
+   [
+    "add",
+    0,
+    0,
+    0,
+    None,
+    "k1",
+    None
+   ],
+   [
+    "short",
+    0,
+    1,
+    "append_sibling",
+    1,
+    None,
+    None
+   ]
+  ]
+ },
+ {
+  "id": "D15",
+  "univ": [
+   "s:a",
+   "s:b"
+  ],
+  "ops": [
+   [
+    "new",
+    True,
+    None
+   ],
+   [
+    "add",
+    0,
+    0,
+    0,
+    None,
+    "k1",
+    None
+   ],
+   [
+    "short",
+    0,
+    1,
+    "prepend_child",
+    1,
+    None,
+    "k1"
+   ]
+  ]
+ },
+ {
+  "id": "D16",
+  "univ": [
+   "s:a",
+   "s:b"
+  ],
+  "ops": [
+   [
+    "new",
+    True,
+    None
+   ],
+   [
+    "add",
+    0,
+    0,
+    0,
+    None,
+    "k1",
+    None
+   ],
+   [
+    "short",
+    0,
+    1,
+    "prepend_sibling",
+    1,
+    None,
+    None
+   ]
+  ]
+ },
+ {
+  "id": "D20",
+  "univ": [
+   "s:a",
+   "s:b"
+  ],
+  "ops": [
+   [
+    "new",
+    False,
+    None
+   ],
+   [
+    "add",
+    0,
+    0,
+    0,
+    "X",
+    None,
+    None
+   ],
+   [
+    "add",
+    0,
+    0,
+    1,
+    None,
+    None,
+    None
+   ],
+   [
+    "addnode",
+    0,
+    2,
+    0,
+    1,
+    None,
+    None,
+    None,
+    None
+   ]
+  ]
+ },
+ {
+  "id": "D21",
+  "univ": [
+   "s:a",
+   "s:b",
+   "s:c"
+  ],
+  "ops": [
+   [
+    "new",
+    True,
+    None
+   ],
+   [
+    "add",
+    0,
+    0,
+    0,
+    None,
+    "k1",
+    None
+   ],
+   [
+    "add",
+    0,
+    1,
+    1,
+    None,
+    "k2",
+    None
+   ],
+   [
+    "add",
+    0,
+    0,
+    2,
+    None,
+    "k1",
+    None
+   ],
+   [
+    "addnode",
+    0,
+    3,
+    0,
+    1,
+    None,
+    "k1",
+    None,
+    True
+   ]
+  ]
+ },
+ {
+  "id": "D22",
+  "univ": [
+   "s:a"
+  ],
+  "ops": [
+   [
+    "new",
+    True,
+    None
+   ],
+   [
+    "add",
+    0,
+    0,
+    0,
+    None,
+    "k1",
+    None
+   ],
+   [
+    "treecopy",
+    0
+   ]
+  ]
+ },
+ {
+  "id": "D23",
+  "univ": [
+   "s:a",
+   "s:b"
+  ],
+  "ops": [
+   [
+    "new",
+    False,
+    None
+   ],
+   [
+    "new",
+    False,
+    None
+   ],
+   [
+    "add",
+    0,
+    0,
+    0,
+    None,
+    None,
+    None
+   ],
+   [
+    "add",
+    0,
+    0,
+    1,
+    None,
+    None,
+    None
+   ],
+   [
+    "addtree",
+    1,
+    0,
+    0,
+    True,
+    None
+   ]
+  ]
+ },
+ {
+  "id": "D29",
+  "univ": [
+   "s:a",
+   "s:b",
+   "s:c"
+  ],
+  "ops": [
+   [
+    "new",
+    False,
+    None
+   ],
+   [
+    "add",
+    0,
+    0,
+    0,
+    None,
+    None,
+    None
+   ],
+   [
+    "add",
+    0,
+    0,
+    1,
+    None,
+    None,
+    None
+   ],
+   [
+    "add",
+    0,
+    2,
+    2,
+    None,
+    None,
+    None
+   ],
+   [
+    "move",
+    0,
+    1,
+    0,
+    0,
+    {
+     "n": 3
+    }
+   ]
+  ]
+ },
+ {
+  "id": "D41",
+  "univ": [
+   "s:a",
+   "s:b"
+  ],
+  "ops": [
+   [
+    "new",
+    False,
+    None
+   ],
+   [
+    "add",
+    0,
+    0,
+    0,
+    None,
+    None,
+    None
+   ],
+   [
+    "add",
+    0,
+    0,
+    1,
+    None,
+    None,
+    None
+   ],
+   [
+    "add",
+    0,
+    2,
+    0,
+    None,
+    None,
+    None
+   ],
+   [
+    "set_data",
+    0,
+    3,
+    None,
+    "N",
+    False
+   ]
+  ]
+ },
+ {
+  "id": "D43",
+  "univ": [
+   "s:a",
+   "s:b"
+  ],
+  "ops": [
+   [
+    "new",
+    False,
+    None
+   ],
+   [
+    "add",
+    0,
+    0,
+    0,
+    None,
+    None,
+    None
+   ],
+   [
+    "add",
+    0,
+    1,
+    0,
+    None,
+    None,
+    None
+   ],
+   [
+    "add",
+    0,
+    2,
+    1,
+    None,
+    None,
+    None
+   ],
+   [
+    "add",
+    0,
+    0,
+    1,
+    None,
+    None,
+    None
+   ],
+   [
+    "remove",
+    0,
+    1,
+    True,
+    True
+   ]
+  ]
+ },
+ {
+  "id": "D44",
+  "univ": [
+   "s:a",
+   "s:b"
+  ],
+  "ops": [
+   [
+    "new",
+    False,
+    None
+   ],
+   [
+    "new",
+    False,
+    None
+   ],
+   [
+    "add",
+    0,
+    0,
+    1,
+    None,
+    None,
+    None
+   ],
+   [
+    "add",
+    0,
+    0,
+    0,
+    None,
+    None,
+    None
+   ],
+   [
+    "add",
+    1,
+    0,
+    0,
+    None,
+    None,
+    None
+   ],
+   [
+    "addtree",
+    1,
+    0,
+    0,
+    None,
+    None
+   ]
+  ]
+ },
+ {
+  "id": "D44b",
+  "univ": [
+   "s:a",
+   "s:b",
+   "s:c"
+  ],
+  "ops": [
+   [
+    "new",
+    False,
+    None
+   ],
+   [
+    "add",
+    0,
+    0,
+    2,
+    None,
+    None,
+    None
+   ],
+   [
+    "add",
+    0,
+    1,
+    1,
+    None,
+    None,
+    None
+   ],
+   [
+    "add",
+    0,
+    1,
+    0,
+    None,
+    None,
+    None
+   ],
+   [
+    "add",
+    0,
+    0,
+    0,
+    None,
+    None,
+    None
+   ],
+   [
+    "copyto",
+    0,
+    1,
+    0,
+    0,
+    False,
+    None,
+    False
+   ]
+  ]
+ },
+ {
+  "id": "D45",
+  "univ": [
+   "s:a"
+  ],
+  "ops": [
+   [
+    "new",
+    False,
+    None
+   ],
+   [
+    "new",
+    False,
+    None
+   ],
+   [
+    "addtree",
+    1,
+    0,
+    0,
+    None,
+    None
+   ]
+  ]
+ },
+ {
+  "id": "D05",
+  "univ": [
+   "s:a",
+   "s:b",
+   "s:c"
+  ],
+  "ops": [
+   [
+    "new",
+    False,
+    None
+   ],
+   [
+    "add",
+    0,
+    0,
+    0,
+    None,
+    None,
+    None
+   ],
+   [
+    "add",
+    0,
+    1,
+    1,
+    None,
+    None,
+    None
+   ],
+   [
+    "add",
+    0,
+    1,
+    2,
+    None,
+    None,
+    None
+   ],
+   [
+    "filter",
+    0,
+    0,
+    {
+     "1": "skip_keep"
+    }
+   ]
+  ]
+ },
+ {
+  "id": "D42b",
+  "univ": [
+   "s:a",
+   "s:b"
+  ],
+  "ops": [
+   [
+    "new",
+    False,
+    None
+   ],
+   [
+    "add",
+    0,
+    0,
+    0,
+    None,
+    None,
+    None
+   ],
+   [
+    "add",
+    0,
+    0,
+    1,
+    None,
+    None,
+    None
+   ],
+   [
+    "move",
+    0,
+    1,
+    0,
+    2,
+    2
+   ]
+  ]
+ },
+ {
+  "id": "D25",
+  "univ": [
+   "s:a",
+   "s:b",
+   "s:c"
+  ],
+  "ops": [
+   [
+    "new",
+    False,
+    None
+   ],
+   [
+    "add",
+    0,
+    0,
+    0,
+    None,
+    None,
+    None
+   ],
+   [
+    "add",
+    0,
+    0,
+    1,
+    None,
+    None,
+    None
+   ],
+   [
+    "add",
+    0,
+    0,
+    2,
+    None,
+    None,
+    None
+   ],
+   [
+    "filter",
+    0,
+    0,
+    {
+     "1": "F",
+     "2": "stop"
+    }
+   ]
+  ]
+ }
+]
+
+
+def run_group(group, oracles=ALL_ORACLES):
+    """One exhaustive group (setup + alternative last ops): replays setup+alt for every alternative.
+    Returns (coq term of type mcase, observation, list of Run) - the observation is what
+    `CaseMut.run_mut (CAlts setup alts)` renders."""
+    setup = replay({"univ": group["univ"], "ops": group["setup"]}, oracles=())
+    runs = [replay({"univ": group["univ"], "ops": group["setup"] + [alt]}, oracles=oracles) for alt in group["alts"]]
+    obs = [setup.obs, [r.obs[-1] for r in runs]]
+    return coq_alts(setup, runs), obs, runs
